@@ -10,6 +10,7 @@ from .vlib import TieBroken
 
 TABLE = [
     (r"std::atomic\s*<", "verif::atomic<"),
+    (r"std::atomic_flag\b", "verif::atomic_flag"),
     (r"std::condition_variable\b", "verif::condition_variable"),
     (r"std::cv_status\b", "verif::cv_status"),
     (r"std::mutex\b", "verif::mutex"),
